@@ -240,6 +240,20 @@ pub fn build(p: &P) -> Cmd {
             *slot.lock().unwrap() = Some(Box::new(move || h.abort()));
             cmd
         }
+        P::JoinSpawn(s, t, n) => Command::new(move |ctx| async move {
+            let c2 = ctx.clone();
+            let (v, ()) = futures::join!(areq(&ctx, s, 0), async move {
+                let w = areq(&c2, t, 0).await;
+                c2.spawn(move |ctx| async move {
+                    if is_b(n.label) {
+                        ctx.notify_shell(OpB::make(n.label, w));
+                    } else {
+                        ctx.notify_shell(OpA::make(n.label, w));
+                    }
+                });
+            });
+            ctx.send_event(Event::got(s, v));
+        }),
         P::HandOff(s, t, u) => Command::new(move |ctx| async move {
             let l = areq_owned(ctx.clone(), s, 0);
             let r = areq_owned(ctx.clone(), t, 0);
